@@ -358,6 +358,9 @@ impl<Payload: for<'de> Deserialize<'de>> JWT<Payload> {
             .ok_or_else(Response::Unauthorized)?;
         let requested_signature = crate::util::base64_url_decode(signature_part)
             .map_err(|_| Response::Unauthorized())?;
+        /* JWS compact serialization has exactly three parts */
+        parts.next().is_none().then_some(())
+            .ok_or_else(Response::Unauthorized)?;
 
         let is_correct_signature = {
             use ::sha2::{Sha256, Sha384, Sha512};
